@@ -1,11 +1,12 @@
 SPECIFICATION GenSpec
 CONSTANTS
   Streams <- TwoStreams
-  Classes <- ClassesRT
+  Classes <- ClassesRTSim
   TsClasses <- TsAll
   Cols <- ColsAll
   ClassKinds <- KindsTab
   ClassX <- XTabRT
+  ClassXS <- XSNone
   ClassT <- TTabRT
   ClassM <- MTabRT
   LowerOf <- LowerTab
